@@ -256,7 +256,7 @@ def job_cookie(job) -> report.JobResult:
     value = SStr.fresh(lv, "v", 0, hi, eng.solver)
     for c in name.items + value.items:
         eng.solver.add(c.e < 0xF0000)
-    shims = Shims().add(DS, _cookie_is_legal_key=legal_key_shim())
+    shims = Shims().add(DS, _cookie_is_legal_key=legal_key_shim()).add_compiled_regexes(DS)
     attrs = job.get("attrs", {})
 
     def fn():
@@ -363,6 +363,20 @@ def quote_model(string, safe="/", encoding=None, errors=None):
     return SStr(out)
 
 
+class _OpaqueSplit:
+    """stands for urlsplit(<symbolic text>): RedirectResponse only needs str(url); any other use is reported, not guessed"""
+
+    def __getattr__(self, name):
+        raise cur()._raise(Unsupported(f"URL component {name!r} of a symbolic redirect target"))
+
+
+def _urlsplit_stub(url, *a, **kw):
+    if isinstance(url, SStr):
+        return _OpaqueSplit()
+    from urllib.parse import urlsplit
+    return urlsplit(url, *a, **kw)
+
+
 def job_redirect(job) -> report.JobResult:
     res = report.JobResult.new(job["name"])
     twin = job.get("twin", False)
@@ -373,12 +387,14 @@ def job_redirect(job) -> report.JobResult:
     cs = SStr.fresh(n, "u", 0, 0x10FFFF, eng.solver)
     it = iter(cs.items)
     url = SStr([next(it) if ch == "*" else ord(ch) for ch in tmpl])
-    shims = Shims().add(R, quote=quote_model)
+    from engine.shims import str_shim
+    shims = Shims().add(R, quote=quote_model).add(DS, urlsplit=_urlsplit_stub).add(WR, str=str_shim).add(AR, str=str_shim)
     SSeq.NORMALIZE = False
+    as_url = job.get("as_url", False)  # the target is handed over as a baize URL object instead of a str
 
     def fn():
         Resp = WR.RedirectResponse if iface == "wsgi" else AR.RedirectResponse
-        r = Resp(url)
+        r = Resp(DS.URL(url) if as_url else url)
         loc = [v for k, v in r.list_headers(as_bytes=False) if k == "location"]
         if len(loc) != 1:
             raise Fail("location-count")
@@ -408,7 +424,7 @@ def job_redirect(job) -> report.JobResult:
         if klass != "location-not-visible-ascii":
             e.last_sat = False
         m = e.witness()
-        wit = {"iface": iface, "url": conc(url, m)}
+        wit = {"iface": iface, "url": conc(url, m), "as_url": as_url}
         with shims.off():
             cp = concrete_redirect(wit)
         if klass is not None:
@@ -435,7 +451,7 @@ def concrete_redirect(w) -> Optional[str]:
     try:
         Resp = WR.RedirectResponse if w["iface"] == "wsgi" else AR.RedirectResponse
         try:
-            r = Resp(w["url"])
+            r = Resp(DS.URL(w["url"]) if w.get("as_url") else w["url"])
         except UnicodeEncodeError:
             return None
         except Exception as ex:  # noqa: BLE001
@@ -469,6 +485,8 @@ def jobs(tier: str):
         for t in templates[n]:
             for iface in ("wsgi", "asgi"):
                 out.append(dict(name=f"redirect/{iface}/{t}", kind="redirect", iface=iface, n=n, template=t, weight=8 ** n))
+                if t in ("*", "/a*b", "/*?x=*"):
+                    out.append(dict(name=f"redirect-url-object/{iface}/{t}", kind="redirect", iface=iface, n=n, template=t, as_url=True, weight=8 ** n))
     out.append(dict(name="twin/redirect", kind="redirect", iface="wsgi", n=1, template="*", twin=True))
     return out
 
